@@ -4,7 +4,7 @@ from vx.extract import C
 
 PROPS = ['C10', 'C04', 'C01']
 
-HEADER = '#![feature(pattern)]\nuse vstd::prelude::*;\nuse std::collections::HashMap;\nverus! {\n'
+HEADER = '#![feature(pattern)]\nuse vstd::prelude::*;\nuse vstd::std_specs::iter::IteratorSpec;\nuse std::collections::HashMap;\nverus! {\n'
 FOOTER = '\n} // verus!\nfn main() {}\n'
 
 LOOKUP = ['r is Some <==> is_open(self@, %s)', 'r is Some ==> *r->Some_0 == self@[%s]->Some_0']
@@ -175,6 +175,33 @@ def build(repo, findings):
 })'''),
     ])
     u.add(hd)
+    # ---- line continuations of an expanding here-document body
+    ex = u.source('brush-core/src/expansion.rs')
+    if ex.has(r'^fn remove_line_continuations\('):
+        rl = ex.item(r'^fn remove_line_continuations\(', 'remove_line_continuations').r1().r11()
+        rl.sig(ret='result', ensures=[C('C10 backslash-newline-removed-unless-the-backslash-is-escaped', 'result@ == remove_cont(s@)')])
+        rl.loop(0, iter_name='it', invariant=[
+            C('aux', 'it.history@ + it.iter.remaining() == s@'),
+            C('C10 scan-state', 'remove_cont(s@) == result@ + remove_cont_from(after_backslash, s@.skip(it.history@.len() as int))'),
+        ], body_first='''proof {
+    let n = it.history@.len() as int;
+    let rest0 = s@.skip(n);
+    assert(it.iter.remaining().len() > 0 && it.iter.remaining()[0] == c);
+    assert((it.history@ + it.iter.remaining())[n] == c);
+    assert(rest0.len() > 0 && rest0[0] == c);
+    assert(rest0.skip(1) =~= s@.skip(n + 1));
+    if rest0.len() >= 2 { assert(rest0.skip(1).skip(1) =~= rest0.skip(2)); assert(rest0.skip(1)[0] == rest0[1]); }
+}''')
+        rl.before_loop('remove_line_continuations', 0, 'proof { assert(result@ =~= Seq::<char>::empty()); assert(s@.skip(0) =~= s@); assert(Seq::<char>::empty() + remove_cont(s@) =~= remove_cont(s@)); }')
+        u.add(rl)
+        ex.require_text(r'let body = remove_line_continuations\(word_str\.as_ref\(\)\);\s*expander\.basic_expand_to_str\(body\.as_str\(\)\)', 'basic_expand_heredoc_word expands the body after removing line continuations')
+    else:
+        u.raw('''pub proof fn heredoc_line_continuations_are_removed()
+    ensures
+        //@ expansion.rs:remove_line_continuations:exists | C10 backslash-newline-removed-unless-the-backslash-is-escaped (no such step before the body is expanded)
+        false,
+{}
+''')
     u.raw(FOOTER)
     u.assume('axiom', 'str::starts_with / ends_with at a char pattern mean first / last character equals it (std documented behaviour)')
     u.assume('assume_specification', 'str::starts_with / ends_with (generic Pattern) are uninterpreted functions of text and pattern; Option::map_or(d, f) is d on None and f(x) on Some(x) (std documented behaviour)')
